@@ -162,6 +162,23 @@ def run_history(ctx, f, analysis, start_label, start, history, hseed):
                           {"label": start_label, "hex": start.hex(), "history": history, "hseed": hseed, "steps": steps,
                            "edited": str(got[bad[0]])[:300], "fresh": str(want[bad[0]])[:300]})
             break
+        # and with a pickle whose opcode *objects* are re-created from their public constructor
+        # arguments: state hidden on opcode instances cannot make the "fresh" side agree by accident
+        try:
+            rep = f.Pickled([type(op)(op.arg, op.pos, op._data) for op in p])
+        except Exception:
+            rep = None
+        if rep is not None:
+            agg.count("recreated_opcode_comparisons")
+            want2 = views(rep, analysis)
+            got2 = views(p, analysis)
+            bad2 = [k for k in want2 if want2[k] != got2[k]]
+            if bad2:
+                agg.violation(f"view-differs-from-recreated-opcodes:{bad2[0]}:after-{name}",
+                              f"after {name} the view '{bad2[0]}' differs from a pickle built from re-created, equal opcodes",
+                              {"label": start_label, "hex": start.hex(), "history": history, "hseed": hseed, "steps": steps,
+                               "edited": str(got2[bad2[0]])[:300], "recreated": str(want2[bad2[0]])[:300]})
+                break
         cat = b"".join(op.data for op in p)
         if p.dumps() != cat or fresh.dumps() != cat:
             agg.violation(f"dumps-not-concatenation:after-{name}", "dumps() differs from the concatenation of opcode data",
